@@ -185,7 +185,7 @@ def pInt (s : String) : Option Int :=
   if s.startsWith "-" then (s.drop 1).toString.toNat?.map (fun n => -(n : Int)) else s.toNat?.map (fun n => (n : Int))
 
 /-- src: verif_hooks::make_buffer (incl. `enter()`) -/
-def mkBuf (gs : List G) (level : Nat) (dir : String) : Buf :=
+def mkBuf (gs : List G) (level : Nat) (dir : String) : RbModel.Morx.Buf :=
   let n := gs.length
   { info := gs.toArray, out := Array.replicate n G.dflt, idx := 0, len := n, outLen := 0,
     haveOutput := false, sepOut := false, successful := true,
@@ -193,13 +193,13 @@ def mkBuf (gs : List G) (level : Nat) (dir : String) : Buf :=
     maxOps := max (n * RbModel.Gen.Morx.MAX_OPS_FACTOR) RbModel.Gen.Morx.MAX_OPS_MIN,
     level := level, backward := dir == "r" || dir == "b", vertical := dir == "t" || dir == "b" }
 
-def compileFeats (f : Font) (feats : List (Nat × Nat × Nat × Nat)) : M (List FeatRange × List (List Range)) := do
+def compileFeats (f : Font) (feats : List (Nat × Nat × Nat × Nat)) : RbModel.Morx.M (List FeatRange × List (List Range)) := do
   let added ← feats.foldlM (fun acc (x : Nat × Nat × Nat × Nat) => do
     let r ← addFeature f.feat x.1 x.2.1 x.2.2.1 x.2.2.2
     pure (acc ++ r)) []
   pure (added, builderCompile f.chains added)
 
-def panicStr (p : Panic) : String := s!"panic {p.name}"
+def panicStr (p : RbModel.Morx.Panic) : String := s!"panic {p.name}"
 
 def splitAtI (ts : List String) : List String × List String :=
   let pre := ts.takeWhile (· != "I")
@@ -235,7 +235,7 @@ def handle (ts : List String) : Option String :=
       let b := mkBuf gs level dir
       let b ← if maxOps == "-" then some b else (pInt maxOps).map (fun m => { b with maxOps := m })
       let b ← if maxLen == "-" then some b else maxLen.toNat?.map (fun m => { b with maxLen := m })
-      let r : M String := do
+      let r : RbModel.Morx.M String := do
         let (_, cf) ← compileFeats f feats
         let b ← applyChains f.chains (cf.map List.toArray) b
         pure s!"ok {b2s b.successful} {b.maxOps} {fmtGlyphs (b.info.extract 0 b.len).toList} F {fmtFlags cf}"
